@@ -856,7 +856,10 @@ class C15C(EngineBase):
         line_level = True
         if policy.kind == "breakpoint":
             # the only pre-emption point of such a run is the chosen site
-            only = [policy.breakpoint[0]]
+            only = []
+            for bp in policy.breakpoints:
+                if bp[0][0] not in only:
+                    only.append(bp[0][0])
             line_level = False
         elif fb:
             tb = sorted((c for c, t in _tiers().items() if t == "B"),
@@ -880,6 +883,11 @@ class C15C(EngineBase):
             pol = T.Policy("breakpoint", rng=random.Random(sch["rng"]),
                            breakpoint=(code[0], -sch["bp"][3] - 1), occurrence=sch["occ"])
             pol.seed = sch["rng"]
+            for cid, off2, occ2 in sch.get("more", []):
+                c2 = [c for c in _tiers() if T.code_id(c) == cid]
+                if c2:
+                    pol.breakpoints.append([(c2[0], -off2 - 1), occ2, 0, False])
+            pol.release = sch.get("release", "fifo")
             return pol
         if sch is not None:
             return T.Policy("recorded", recorded={int(p): t for p, t in sch["switches"]},
@@ -904,6 +912,15 @@ class C15C(EngineBase):
             pol = T.Policy("breakpoint", rng=random.Random(seed2),
                            breakpoint=(code, -off - 1), occurrence=occ)
             pol.seed = seed2
+            if rng.random() < 0.35:
+                # a second window: another (or the same) site parks a second
+                # thread; the parked threads are then released in turn
+                code2 = rng.choices(codes, weights=weights)[0] if rng.random() < 0.5 else code
+                near2 = sorted(T.write_adjacent_offsets(code2))
+                off2 = rng.choice(near2) if near2 and rng.random() < 0.75 else rng.choice(
+                    [i.offset for i in _dis.get_instructions(code2)])
+                pol.breakpoints.append([(code2, -off2 - 1), rng.choice([1, 1, 2]), 0, False])
+                pol.release = rng.choice(["fifo", "lifo"])
             return pol
         if cfg["policy"] == "pct":
             pts = set()
@@ -946,7 +963,11 @@ class C15C(EngineBase):
         if policy.kind == "breakpoint":
             c, w = policy.breakpoint
             st.schedule = {"bp": T.code_id(c) + [-w - 1], "occ": policy.occurrence,
-                           "rng": policy.seed}
+                           "rng": policy.seed, "release": policy.release,
+                           "more": [[T.code_id(b[0][0]), -b[0][1] - 1, b[1]]
+                                    for b in policy.breakpoints[1:]]}
+            if len(policy.breakpoints) > 1 and all(b[3] for b in policy.breakpoints):
+                st.stats["reach.double_breakpoint_fired"] += 1
         else:
             st.schedule = {"switches": [[p, t] for p, t in baton.switches],
                            "exits": baton.exit_picks if policy.kind != "recorded" else cfg["schedule"]["exits"]}
@@ -956,6 +977,7 @@ class C15C(EngineBase):
         st.stats["sched.policy." + cfg["policy"]] += 1
         if getattr(policy, "parked", None) is not None:
             st.stats["reach.breakpoint_fired"] += 1
+            st.stats["fault.breakpoint_park"] += 1
         hot_sw = 0
         for name, where in baton.switch_sites:
             st.states.add(f"{name}:{where}")
